@@ -82,6 +82,11 @@ def ev(t, env=None):
         xs = [ev(x, env) for x in t[1]]
         ys = [ev(y, env) for y in t[2]]
         return sum((xs[k + 1] - xs[k]) * (ys[k + 1] + ys[k]) / 2.0 for k in range(len(xs) - 1))
+    if op == "acos":     # arccos in [0, pi]; nan outside [-1, 1] (X01: triangle_angle, packing capability)
+        v = ev(t[1], env)
+        return math.acos(v) if -1.0 <= v <= 1.0 else float("nan")
+    if op == "nan":      # the documented formula has no value (X01)
+        return float("nan")
     raise ValueError(f"unknown term constructor {op!r}")
 
 
